@@ -41,10 +41,12 @@ class VirtualLoop(asyncio.SelectorEventLoop):
                 if when > self._vt:
                     self._vt = when
             elif not self._stopping:  # type: ignore[attr-defined]
-                # nothing runnable and no timer: the coroutine under test can never make progress
-                self.stalled = True
-                for t in asyncio.all_tasks(self):
-                    t.cancel()
+                live_tasks = [t for t in asyncio.all_tasks(self) if not t.done()]
+                if live_tasks:
+                    # nothing runnable and no timer: the coroutine under test can never make progress
+                    self.stalled = True
+                    for t in live_tasks:
+                        t.cancel()
         super()._run_once()  # type: ignore[misc]
 
 
@@ -193,6 +195,15 @@ class Origin:
         self.kind_counts: dict[str, int] = {}
 
     # -- helpers
+    @staticmethod
+    def _in_chunk_task(task: Any) -> bool:
+        """Chunk downloads run in their own asyncio tasks; the probe runs in the task that runs the whole fetch."""
+        try:
+            name = task.get_coro().__qualname__
+        except Exception:
+            return False
+        return "_timed_fetch" in name or "_fetch_one_chunk" in name
+
     def _ce(self, where: str) -> dict[str, str]:
         decl = self.s.get("ce_declared", "all")
         if not self.ce:
@@ -246,7 +257,7 @@ class Origin:
                 ch["kind"] = "head"
             elif rng is None:
                 ch["kind"] = "get"
-            elif self.presigned and not self.probe_seen and rng == "bytes=0-0":
+            elif self.presigned and rng == "bytes=0-0" and not self._in_chunk_task(task):
                 ch["kind"] = "probe"
                 self.probe_seen = True
             else:
